@@ -394,12 +394,13 @@ func tailAnchor(pP, pQ gammaPath) string {
 	case ks["finite_gamma_q"] || ks["finite_half_gamma_q"] || ks["upper_gamma_fraction"]:
 		want = "Q"
 	case ks["igamma_temme_large"]:
+		// the expansion itself switches sign on x < a: the dispatcher has to decide with the same predicate
 		if v, ok := pP.pure["lt(x, a)"]; ok {
 			want = map[bool]string{true: "P", false: "Q"}[v]
 		} else if v, ok := pP.pure["le(a, x)"]; ok {
 			want = map[bool]string{true: "Q", false: "P"}[v]
-		} else if v, ok := pP.pure["lt(a, x)"]; ok {
-			want = map[bool]string{true: "Q", false: "P"}[v]
+		} else {
+			return "the dispatcher does not decide which tail Temme's expansion returns with the predicate x < a that the expansion itself uses: at x = a the two disagree and P and Q are exchanged"
 		}
 	case ks["pow"] && !ks["sumseries"] && !ks["Powm1"]:
 		want = "P"
